@@ -1,14 +1,17 @@
 /-
 C01 — FASTA and FASTQ write-then-read reproduces every record.  Property theorems only.
+
+The models are `Biogo.Model.Fasta` / `Biogo.Model.Fastq` (the definitions the driver runs);
+the domain of the property is `Biogo.Spec.Seqio` (`wfFasta`, `wfFastq`, `wfFastqPlain`).
+A call history `[.ret ⟨some r₁, none⟩, …, .ret ⟨some rₙ, none⟩, .ret ⟨none, some .eof⟩]`
+says: the successive calls of `Read` returned `r₁ … rₙ` with a nil error and then `io.EOF`.
 -/
-import Biogo.Model.Fasta
-import Biogo.Model.Fastq
-import Biogo.Spec.Seqio
+import Biogo.Proofs.Fasta
 import Biogo.Generated.Seqio
 import Biogo.Generated.Alphabets
 
 namespace Biogo.Properties.C01
-open Biogo.Go.Bytes
+open Biogo.Go.Bytes Biogo.Spec.Seqio
 
 /-- The constants the models are stated for are the ones in the source: the default FASTA
     prefixes, `seq.DefaultQphred`, `seq.DefaultEncoding = alphabet.Sanger`, and the numeric
@@ -20,5 +23,59 @@ theorem source_constants :
     Biogo.Generated.Seqio.defaultEncoding = 0 ∧
     Biogo.Generated.Seqio.encodingValues = [-1, 0, 1, 2, 3, 4, 5] := by
   decide
+
+/-- "letters drawn from a nucleotide or protein alphabet": every letter (in either case) of
+    every built-in alphabet, as regenerated from the source, is a legal FASTA letter
+    (visible ASCII, not `>`) and a legal FASTQ letter (not `+`, so in particular a legal
+    first letter). -/
+theorem alphabet_letters_ok :
+    ∀ d ∈ Biogo.Generated.builtins, ∀ l ∈ d.letters,
+      (visible l && l != 62 && l != 43 &&
+       visible (Biogo.Alphabet.toUpper l) && Biogo.Alphabet.toUpper l != 62 && Biogo.Alphabet.toUpper l != 43) = true := by
+  decide +kernel
+
+/-! ### FASTA -/
+
+section fasta
+open Biogo.Fasta
+
+/-- **FASTA write-then-read.**  Any list of well-formed records, written by `Writer.Write` at
+    any positive width, is read back by `Reader.Read` as the same records in the same order
+    (identical name, description and letters), followed by `io.EOF`.  The writer does not
+    panic, and `ns` are the counts it returned. -/
+theorem fasta_roundtrip (recs : List Rec) (w : Nat) (hw : 1 ≤ w) (hwf : ∀ r ∈ recs, wfFasta r = true) :
+    ∃ sink ns, writeAll { width := w } {} recs = .ok (sink, ns) ∧
+      readAll {} sink.bytes
+        = recs.map (fun r => Call.ret ⟨some r, none⟩) ++ [Call.ret ⟨none, some .eof⟩] := by
+  obtain ⟨sink, h1, h2⟩ := writeAll_spec w (by omega) {} recs
+  refine ⟨sink, _, h1, ?_⟩
+  have hb : sink.bytes = recs.flatMap (render w) := by simpa [Sink.bytes] using h2
+  rw [hb]
+  exact renders_read recs _ hwf (renders_writer w recs hwf)
+
+/-- **Byte count (FASTA).**  Whenever `Write` returns, the `n` it returns is the number of bytes
+    it put on the writer — for every record (well-formed or not), width and pair of prefixes. -/
+theorem fasta_write_count (wr : Writer) (sink sink' : Sink) (r : Rec) (n : Nat)
+    (h : write wr sink r = .ok (sink', n)) : sink'.out.size = sink.out.size + n :=
+  write_count wr sink sink' r n h
+
+/-- the stronger statement behind the round trip (shared with C04): any layout of the
+    records reads back as the records -/
+theorem fasta_renders_read (recs : List Rec) (bs : Bytes) (hwf : ∀ r ∈ recs, wfFasta r = true)
+    (h : FastaRenders recs bs) :
+    readAll {} bs = recs.map (fun r => Call.ret ⟨some r, none⟩) ++ [Call.ret ⟨none, some .eof⟩] :=
+  renders_read recs bs hwf h
+
+-- non-vacuity: well-formed records exist (an empty sequence, names made of `>` `@` `+`,
+-- a description with inner double blank), and the statement computes on them
+example : wfFasta ⟨[62, 64, 43], [97, 32, 32, 98], []⟩ = true ∧ wfFasta ⟨[], [], [97, 45, 42]⟩ = true := by decide
+example :
+    (match writeAll { width := 2 } {} [⟨[62, 64, 43], [97, 32, 32, 98], [97, 99, 103]⟩, ⟨[], [], []⟩] with
+     | .ok (sink, ns) => (ns, readAll {} sink.bytes)
+     | .error _ => ([], []))
+    = ([15, 2], [.ret ⟨some ⟨[62, 64, 43], [97, 32, 32, 98], [97, 99, 103]⟩, none⟩,
+                 .ret ⟨some ⟨[], [], []⟩, none⟩, .ret ⟨none, some .eof⟩]) := by decide
+
+end fasta
 
 end Biogo.Properties.C01
